@@ -88,6 +88,8 @@ def c06_w9(ctx, w, S, up):
     """In the scroll-up primitive existing rows are rotated/overwritten only for
     ranges that do not start at row 0 (shared with C06.W9)."""
     E = w.E
+    from rules import prims as _pr
+    ctx = shared.Deferred(ctx, {"K6"}, _pr.scroll_ok(w, S))      # decided semantically by the scroll-primitive specification (rows leaving a row-0 range are appended in order)
     ctx.rule("K6", "a scroll of a range starting at row 0 only appends/inserts rows; it never rotates or overwrites rows of the line vector")
     b = w.body(up)
     T = w.terms(up)
